@@ -53,7 +53,9 @@ func keysOperator(_ *dataTreeNavigator, context Context, _ *ExpressionNode) (Con
 			return Context{}, fmt.Errorf("Cannot get keys of %v, keys only works for maps and arrays", candidate.Tag)
 		}
 
-		results.PushBack(targetNode)
+		// the list of keys is a value of its own (of the same document and file): it does not share the key nodes
+		// of the map, which would let a later update or delete of a list element reach into the map
+		results.PushBack(candidate.CopyAsReplacement(targetNode))
 	}
 
 	return context.ChildContext(results), nil
